@@ -19,6 +19,9 @@ mod sequential;
 mod ctl_queue {
     include!("../ctl_queue.rs");
 }
+mod ctl_srvq {
+    include!("../ctl_srvq.rs");
+}
 mod ctl_pool {
     include!("../ctl_pool.rs");
 }
@@ -56,6 +59,7 @@ fn main() {
             "ahead" => Some(ctl_scen::ahead_family),
             "vanish" => Some(ctl_scen::vanish_family),
             "vanishdata" => Some(ctl_scen::vanishdata_family),
+            "idle" => Some(ctl_scen::idle_family),
             _ => None,
         };
         if let Some(f) = fam {
@@ -70,6 +74,7 @@ fn main() {
         }
         let line = match kind {
             "queue" => ctl_queue::run(i, &mut rng),
+            "srvq" => ctl_srvq::run(i, &mut rng),
             "pool" => ctl_pool::run(i, &mut rng),
             "seq" => ctl_seq::run(i, &mut rng),
             _ => {
